@@ -1431,9 +1431,11 @@ impl HashColumn {
 					table.validate_plan(record.index, log)?;
 				} else {
 					if record.table.index_bits() < tables.index.id.index_bits() {
-						// Insertion into a previously dropped index.
-						log::warn!( target: "parity-db", "Index {} is too old. Current is {}", record.table, tables.index.id);
-						return Err(Error::Corruption("Unexpected log index id".to_string()))
+						// Write to an index that was dropped by a record enacted before the
+						// restart. `enact_plan` skips it: the entries were moved to the newer
+						// index before the old one was dropped.
+						log::debug!( target: "parity-db", "Index {} is too old. Current is {}. Skipped", record.table, tables.index.id);
+						return IndexTable::skip_plan(log)
 					}
 					// Re-launch previously started reindex
 					// TODO: add explicit log records for reindexing events.
@@ -1462,9 +1464,10 @@ impl HashColumn {
 					table.validate_plan(record.index, log)?;
 				} else {
 					if record.table.index_bits() < tables.get_ref_count().id.index_bits() {
-						// Insertion into a previously dropped ref count.
-						log::warn!( target: "parity-db", "Ref count {} is too old. Current is {}", record.table, tables.get_ref_count().id);
-						return Err(Error::Corruption("Unexpected log ref count id".to_string()))
+						// Write to a ref count table that was dropped by a record enacted before
+						// the restart. `enact_plan` skips it.
+						log::debug!( target: "parity-db", "Ref count {} is too old. Current is {}. Skipped", record.table, tables.get_ref_count().id);
+						return RefCountTable::skip_plan(log)
 					}
 					// Re-launch previously started reindex
 					// TODO: add explicit log records for reindexing events.
